@@ -76,6 +76,7 @@ def showCValue : CValue → String
   | .scalar (.int i) => s!"s.int:{i}"
   | .scalar (.float f) => s!"s.float:{f}"
   | .scalar (.str s) => "s.str:" ++ hexOfStr s
+  | .scalar (.bytes b) => "s.bytes:" ++ hex b
   | .vectorRaw v => "raw:" ++ showNats v
   | .vectorTT _ => "tt"
   | .vectorSparse d pb xs => s!"vsparse:{d}:{hex pb}:{showNats xs}"
@@ -91,6 +92,7 @@ def parseCValue (s : String) : Option CValue :=
   | ["s.int", i] => i.toInt?.map (fun i => .scalar (.int i))
   | ["s.float", f] => f.toNat?.map (fun f => .scalar (.float f))
   | ["s.str", h] => (strOfHex h).map (fun s => .scalar (.str s))
+  | ["s.bytes", h] => (unhex h).map (fun b => .scalar (.bytes b))
   | ["raw", v] => (parseNats v).map .vectorRaw
   | ["vsparse", d, pb, xs] =>
     match d.toNat?, unhex pb, parseNats xs with
@@ -103,14 +105,6 @@ def parseCValue (s : String) : Option CValue :=
     | _, _ => none
   | ["ptr", h] => (strOfHex h).map .pointer
   | _ => none
-
-def showCScalarF : CScalarF → String
-  | .null => "s.null"
-  | .bool b => if b then "s.bool:1" else "s.bool:0"
-  | .int i => s!"s.int:{i}"
-  | .float f => s!"s.float:{f}"
-  | .str s => "s.str:" ++ hexOfStr s
-  | .bytes b => "s.bytes:" ++ hex b
 
 def isTT : CValue → Bool
   | .vectorTT _ => true
@@ -132,12 +126,12 @@ def describe (new : Bytes) (same : Bool) (st : FS Bool) : String :=
     | some f => s!"{f.content.length}"
   s!"tmp={if same then "same" else tmp} path={showPath (st false)} unsynced={match st false with | none => 0 | some f => f.pending.length}"
 
-def crashList (same old fsyncFirst quant : Bool) (hl bl : Nat) : List (FS Bool) × Bytes :=
+def crashList (same old quant : Bool) (hl bl : Nat) : List (FS Bool) × Bytes :=
   let hdr := List.replicate hl 1
   let body := List.replicate bl 2
   let fs0 : FS Bool := fun p => if p = false && old then some ⟨oldBytes, []⟩ else none
   let tmp := !same
-  let ops := if quant then saveOpsQ tmp false (hdr ++ body) fsyncFirst else saveOps tmp false hdr body fsyncFirst
+  let ops := if quant then saveOpsQ tmp false (hdr ++ body) else saveOps tmp false hdr body
   (crashStates fs0 ops, hdr ++ body)
 
 def showOp : IoOp Bool → String
@@ -184,55 +178,33 @@ def snapStep (_ : Unit) (line : String) : Unit × String :=
     match strOfHex h with
     | none => bad
     | some s => ((), hexOfStr (String.ofList (tmpName s.toList)))
-  | ["ops", quant, fs, hl, bl] =>
-    match parseBool quant, parseBool fs, hl.toNat?, bl.toNat? with
-    | some q, some fs, some hl, some bl =>
+  | ["ops", quant, hl, bl] =>
+    match parseBool quant, hl.toNat?, bl.toNat? with
+    | some q, some hl, some bl =>
       let ops : List (IoOp Bool) :=
-        if q then saveOpsQ true false (List.replicate (hl + bl) 0) fs
-        else saveOps true false (List.replicate hl 0) (List.replicate bl 0) fs
+        if q then saveOpsQ true false (List.replicate (hl + bl) 0)
+        else saveOps true false (List.replicate hl 0) (List.replicate bl 0)
       ((), ";".intercalate (ops.map showOp))
-    | _, _, _, _ => bad
-  | ["crash_count", same, old, fs, quant, hl, bl] =>
-    match parseBool same, parseBool old, parseBool fs, parseBool quant, hl.toNat?, bl.toNat? with
-    | some same, some old, some fs, some q, some hl, some bl =>
-      ((), toString (crashList same old fs q hl bl).1.length)
-    | _, _, _, _, _, _ => bad
-  | ["crash_at", same, old, fs, quant, hl, bl, i] =>
-    match parseBool same, parseBool old, parseBool fs, parseBool quant, hl.toNat?, bl.toNat?, i.toNat? with
-    | some same, some old, some fs, some q, some hl, some bl, some i =>
-      let (sts, new) := crashList same old fs q hl bl
+    | _, _, _ => bad
+  | ["crash_count", same, old, quant, hl, bl] =>
+    match parseBool same, parseBool old, parseBool quant, hl.toNat?, bl.toNat? with
+    | some same, some old, some q, some hl, some bl =>
+      ((), toString (crashList same old q hl bl).1.length)
+    | _, _, _, _, _ => bad
+  | ["crash_at", same, old, quant, hl, bl, i] =>
+    match parseBool same, parseBool old, parseBool quant, hl.toNat?, bl.toNat?, i.toNat? with
+    | some same, some old, some q, some hl, some bl, some i =>
+      let (sts, new) := crashList same old q hl bl
       match sts[i]? with
       | none => ((), "none")
       | some st => ((), describe new same st)
-    | _, _, _, _, _, _, _ => bad
+    | _, _, _, _, _, _ => bad
   | ["cval", tt, delta, key, field, v] =>
     match parseBool tt, parseBool delta, strOfHex key, strOfHex field, parseTValue v with
     | some tt, some delta, some key, some field, some v =>
       let c := compressValue ⟨tt, delta, true⟩ key.toList field.toList v
       ((), showCValue c ++ " => " ++ showTValue (isTT c) (decompressValue id c))
     | _, _, _, _, _ => bad
-  | ["cvalf", tt, delta, key, field, v] =>
-    match parseBool tt, parseBool delta, strOfHex key, strOfHex field, parseTValue v with
-    | some tt, some delta, some key, some field, some v =>
-      match v with
-      | .scalar sc =>
-        ((), showCScalarF (compressScalarF sc) ++ " => " ++ showTValue false (roundValueF id ⟨tt, delta, true⟩ key.toList field.toList v))
-      | _ =>
-        let c := compressValueF ⟨tt, delta, true⟩ key.toList field.toList v
-        ((), showCValue c ++ " => " ++ showTValue (isTT c) (decompressValue id c))
-    | _, _, _, _, _ => bad
-  | ["tmpnamef", h] =>
-    match strOfHex h with
-    | none => bad
-    | some s => ((), hexOfStr (String.ofList (tmpNameFixed s.toList)))
-  | ["embf", ttok, v] =>
-    match parseBool ttok, parseNats v with
-    | some ttok, some v =>
-      match fromDenseFixed (fun _ => ttok) v with
-      | .dense d => ((), "dense => " ++ showNats (toDense id (.dense d)))
-      | .sparse dim ps xs => ((), s!"sparse {showNats ps} => " ++ showNats (toDense id (.sparse dim ps xs)))
-      | .tt _ => ((), "tt => tt")
-    | _, _ => bad
   | ["c2t", c] =>
     match parseCValue c with
     | some c => ((), showTValue (isTT c) (decompressValue id c))
